@@ -20,15 +20,13 @@ VARIABLE i
 
 H == INSTANCE Hostile WITH faults <- {}, MaxFaults <- 2, Dump <- FALSE
 
-Space == H!AllFaults
-
 HostileFailing(item) ==
     LET clauses ==
           (IF item.result \notin H!DocumentedResults /\ ~item.timeout /\ ~item.memory_error
              THEN {"UndocumentedException"} ELSE {})
           \cup (IF item.timeout \/ item.elapsed_ms > H!Budget THEN {"Timeout"} ELSE {})
           \cup (IF item.memory_error \/ item.peak_kb > H!MemBudgetKb THEN {"MemoryBlowup"} ELSE {})
-          \cup (IF item.base # H!Base \/ \E k \in 1..Len(item.faults) : item.faults[k] \notin Space
+          \cup (IF item.base # H!Base \/ \E k \in 1..Len(item.faults) : ~H!InFaultSpace(item.faults[k])
                   THEN {"FaultNotInModel"} ELSE {})
     IN  \* the named clauses are exactly the negation of AllowedOutcome
         IF (clauses \ {"FaultNotInModel"} = {}) = H!AllowedOutcome(item)
